@@ -117,6 +117,10 @@ def _serve_gzip(case):
         def flush(self):
             return self.d.flush()
 
+        @property
+        def eof(self):      # read by _GzipMessageDelegate.finish() since the truncated-gzip fix (tornado c14a11a)
+            return self.d.eof
+
     async def data_received(self, chunk):
         holder["log"].append(("G", bytes(chunk), getattr(self, "_max_body_size", None), self._decompressor is not None))
         try:
